@@ -101,6 +101,16 @@ claim("C09", "exploration",
       "Trusted: sha256. Refused generations (NotImplementedError) are compared as refusals. results/* in the repository are not the reference (generated by older versions).",
       "DESIGN.md section 3 C09")
 
+claim("C03", "exploration",
+      "oracle-free identity monitor on one interpreter run of the package's own expansions; special-value lattice exhaustive",
+      "The 14 complex graphs (and real asin/asinh/square), expanded by the package's own definitions through the repository's modifier_base, are evaluated "
+      "on z, conj z, -z and i*z in one process and compared as bit patterns (NaN=NaN): conjugation symmetry (Im z != 0), oddness (inputs on the function's "
+      "own cut excluded), evenness of square, asinh=-i*asin(iz), atan=-i*atanh(iz), acosh=+-i*acos, Im acos=-Im asin. Inputs: random bit patterns, the full "
+      "lattice of ~60x60 special values per precision, structured sets (axes, |x|=|y|, unit circle, x=-y^2/2).",
+      "Trusted: the independent vectorised interpreter vf.graph.interp_np (cross-validated against emitted NumPy source in C05). Relies on NumPy's real "
+      "natives being odd/even bitwise. Known finding KF-C03-odd-zero (sign of zero outputs at zero input components).",
+      "DESIGN.md section 3 C03")
+
 SOURCE_COMMITS = []
 
 
